@@ -36,7 +36,7 @@ Theorems, for ANY expander `expand` whose successful outputs are at least as lon
   differential tests, not of a theorem); on the spec side the relation is functional
   (`isHashToCurveG1_unique`), so the RFC point is determined by `(msg, dst)` too.
 
-NOT proved here (see C16; for the 3-isogeny of G2 it IS proved in PP.Props.C16Hom): that `isoMapPoint` is a group homomorphism `E' → E`; the RFC does not need
+NOT proved here (proved in PP.Props.C16Hom and PP.Props.C16Hom11): that `isoMapPoint` is a group homomorphism `E' → E`; the RFC does not need
 it to DEFINE the output, and neither do the statements below.  SHA-256's output length (`hH`) is a
 hypothesis as in C13.
 -/
